@@ -38,6 +38,11 @@ def range_reducer(z):
     return z.max() - z.min()
 
 
+def size_reducer(z):
+    """a user statistic that does not know about masks: how many cells it was handed (must be the valid cells of the zone, nothing else)"""
+    return z.shape[0] * 1.0
+
+
 # numba-compilable twins used by the replay worker (the real focal.apply calls the reducer from nopython code)
 try:
     import numba as _nb
